@@ -140,6 +140,7 @@ class Sim:
         self.step_cap = int(plan.get("step_cap", STEP_CAP))
         self.end_time = 0.0
         self.outcome: Any = None
+        self.crashed: str | None = None
 
     # ------------------------------------------------------------------ observation
     def now(self) -> float:
@@ -248,8 +249,10 @@ class Sim:
             ok = self.loop.deliver_signal(sig)
         else:
             handler = _signal.getsignal(sig)
-            if handler in (_signal.SIG_DFL, _signal.SIG_IGN, None) or (
-                sig == _signal.SIGINT and handler is _signal.default_int_handler
+            if (
+                handler in (_signal.SIG_DFL, _signal.SIG_IGN, None)
+                or (sig == _signal.SIGINT and handler is _signal.default_int_handler)
+                or getattr(handler, "_verif_base", False)
             ):
                 ok = False
             else:
@@ -344,6 +347,36 @@ def run_sim(sim: Sim, main: Callable[[Sim], Any]) -> None:
         _al.propagate = False
     with warnings.catch_warnings():
         warnings.simplefilter("ignore", ResourceWarning)
+        with backend_seam(sim) as (backend, options):
+            try:
+                anyio.run(harness_main, backend=backend, backend_options=options)
+            except SimDeadlock:
+                sim.deadlock = True
+                sim.aborting = True
+            except SimStepLimit:
+                sim.step_limit = True
+                sim.aborting = True
+            except Exception as e:  # noqa: BLE001
+                # the run fell apart (e.g. the code under test let a context be entered
+                # twice and the backend's bookkeeping broke).  The oracle still judges the
+                # history recorded so far; a crash without any rule violation is reported
+                # as a harness error by the runner, never as a violation.
+                import traceback as _tb
+
+                sim.crashed = f"{type(e).__name__}: {e} :: {_tb.format_exc()[-600:]}"
+                sim.log("run_crashed", exc=f"{type(e).__name__}: {str(e)[:120]}")
+
+
+class backend_seam:
+    """Context manager yielding (backend, backend_options) that put an anyio.run() call -
+    ours or the one inside asphalt's run_application() - under the simulator."""
+
+    def __init__(self, sim: Sim) -> None:
+        self.sim = sim
+        self._patch: Any = None
+
+    def __enter__(self) -> tuple[str, dict]:
+        sim = self.sim
         if sim.backend == "asyncio":
             import random as _random
 
@@ -359,32 +392,26 @@ def run_sim(sim: Sim, main: Callable[[Sim], Any]) -> None:
                 sim.loop = loop
                 return loop
 
-            try:
-                anyio.run(harness_main, backend="asyncio", backend_options={"loop_factory": factory})
-            except SimDeadlock:
-                sim.deadlock = True
-                sim.aborting = True
-            except SimStepLimit:
-                sim.step_limit = True
-                sim.aborting = True
-            finally:
-                if sim.loop is not None:
-                    sim.step = sim.loop.step
-                    if not sim.loop.is_closed():
-                        try:
-                            sim.loop.close()
-                        except Exception:
-                            pass
-        elif sim.backend == "trio":
+            return "asyncio", {"loop_factory": factory}
+        if sim.backend == "trio":
             from .trio_rt import SimInstrument, SimScheduler, TrioPatch, make_clock
 
             sched = SimScheduler(sim.sched_seed, sim.sched_policy, sim)
             sim.user["_sched"] = sched
-            with TrioPatch(sched):
-                anyio.run(
-                    harness_main,
-                    backend="trio",
-                    backend_options={"clock": make_clock(), "instruments": [SimInstrument(sim)]},
-                )
-        else:
-            raise HarnessError(f"unknown backend {sim.backend!r}")
+            self._patch = TrioPatch(sched)
+            self._patch.__enter__()
+            return "trio", {"clock": make_clock(), "instruments": [SimInstrument(sim)]}
+        raise HarnessError(f"unknown backend {sim.backend!r}")
+
+    def __exit__(self, *exc: Any) -> bool:
+        sim = self.sim
+        if self._patch is not None:
+            self._patch.__exit__(*exc)
+        if sim.loop is not None:
+            sim.step = sim.loop.step
+            if not sim.loop.is_closed():
+                try:
+                    sim.loop.close()
+                except Exception:
+                    pass
+        return False
